@@ -328,7 +328,7 @@ def run(tier, seed, replay):
         chk.proof_broken = True
         chk.proof_failure = {"failed": "tools/lib/c20_cfg.py", "output": "%s: %s" % (type(e).__name__, e)}
     if x is not None:
-        st = common.check_proofs(chk, "C20", extra_dirs=("Gen",))
+        st = common.check_proofs(chk, "C20")
         chk.log("facts: %s" % {k: v for k, v in x["stats"].items() if not isinstance(v, dict)})
         BASE_EXC = x["exceptions"]
         for u in x["ok_pairs"]:
@@ -433,8 +433,10 @@ def run(tier, seed, replay):
                 for f in rng.sample(feats, 8):
                     add("check", [f], False, why="single-nostd-sample")
                 tf = [f for f in feats if f in tests_of]
-                for f in rng.sample(tf, min(4, len(tf))):
-                    add("test", [f], True, tests_of[f][0], why="test-sample")
+                # "behaves as under full": the repository's own test file(s) of every single feature are RUN
+                for f in tf:
+                    for t_ in tests_of[f]:
+                        add("test", [f], True, t_, why="test-single")
                 for f in rng.sample(tf, min(2, len(tf))):
                     add("test", [f], False, tests_of[f][0], why="test-nostd-sample")
                 for pr in rng.sample(list(itertools.combinations(feats, 2)), 8):
